@@ -1,4 +1,4 @@
-(* C16K — source tie BY TRANSLATION for the component layer — the FC layer: input test (exactly one non-nil rank-2 tensor), Forward = input test then the forward body, validation of the initialised weights.
+(* C16K — source tie BY TRANSLATION for the component layer — the FC layer: input test (exactly one non-nil rank-2 tensor), Forward = input test then the forward body, validation of the initialised weights; the constructor NewFC / toValidFCConfig (config validation, default initializers XavierUniform(inputs, outputs) and Full(0), weight initialised first, both with shape [outputs]) against the model's fc_new.
    Statements only (proofs: Proofs/Comp*P.v).  Model/GoComp.v is REGENERATED from /repo's Go sources on every run by
    harness/gox (comp.go): the component layer's own logic — input validators, config validators, constructors, the
    scale formulas of the initializers, the Accuracy counters — as loop-free programs of the imperative language of
@@ -12,9 +12,9 @@
    the same thing.  Closed under the global context. *)
 From Coq Require Import String List ZArith Bool Arith.
 From Qeep Require Import Model.Scalar Model.Nd Model.Fill Model.Data Model.Valid Model.Api Model.Grad Model.Backprop Model.Components Model.Consts Model.DataIR Model.HeapExt Model.CompExt.
-From Qeep Require Model.GoComp.
+From Qeep Require Model.GoComp Model.GoWrap Model.DataExt Model.RandExt.
 From Qeep Require Import Proofs.DataIRP.
-From Qeep Require Proofs.CompValidP Proofs.CompAccP Proofs.CompInitP.
+From Qeep Require Proofs.CompValidP Proofs.CompAccP Proofs.CompInitP Proofs.CompInputP Proofs.CompFcP Proofs.CompTensorP Proofs.DataRandP Proofs.FillP Proofs.NdP.
 Import ListNotations.
 Local Open Scope string_scope.
 
@@ -88,3 +88,284 @@ Theorem FC_validateInitializedWeights_ok_iff :
      rankOf h bn = 1 /\ Z.of_nat (dim0Of h wn) = outputs /\ Z.of_nat (dim0Of h bn) = outputs).
 Proof. exact @CompValidP.FC_validateInitializedWeights_ok_iff. Qed.
 Print Assumptions FC_validateInitializedWeights_ok_iff.
+
+Theorem toValidFCConfig_rejects_nil :
+  forall (A : Type) (SA : Scalar A) (fltb fleb : A -> A -> bool)
+    (lib : string -> list dval -> heap -> option (list dval * heap)) (fuel depth : nat) 
+    (h : heap),
+  CompFcP.outcome
+    (drun cfapp heap (cext2 fltb fleb lib) GoComp.c_FC_toValidFCConfig fuel depth [DNil] h) =
+  Some ([DNil; DI 1], h).
+Proof. exact @CompFcP.toValidFCConfig_nil. Qed.
+Print Assumptions toValidFCConfig_rejects_nil.
+
+Theorem toValidFCConfig_exact :
+  forall (A : Type) (SA : Scalar A) (fltb fleb : A -> A -> bool)
+    (lib : string -> list dval -> heap -> option (list dval * heap)) (fuel depth : nat)
+    (inputs outputs : Z) (mp : option (option dval * option dval)) (h : heap),
+  CompFcP.outcome
+    (drun cfapp heap (cext2 fltb fleb lib) GoComp.c_FC_toValidFCConfig fuel depth
+       [CompFcP.fcConf inputs outputs (CompFcP.fcMap mp)] h) =
+  Some
+    ([fst (CompFcP.fcValidated inputs outputs mp); DI (snd (CompFcP.fcValidated inputs outputs mp))], h).
+Proof. exact @CompFcP.toValidFCConfig_spec. Qed.
+Print Assumptions toValidFCConfig_exact.
+
+Theorem toValidFCConfig_rejects_nonpositive_sizes :
+  forall (A : Type) (SA : Scalar A) (fltb fleb : A -> A -> bool)
+    (lib : string -> list dval -> heap -> option (list dval * heap)) (fuel depth : nat)
+    (inputs outputs : Z) (m : dval) (h : heap),
+  (inputs <= 0)%Z \/ (outputs <= 0)%Z ->
+  CompFcP.outcome
+    (drun cfapp heap (cext2 fltb fleb lib) GoComp.c_FC_toValidFCConfig fuel depth
+       [CompFcP.fcConf inputs outputs m] h) = Some ([CompFcP.fcConf inputs outputs m; DI 1], h).
+Proof. exact @CompFcP.toValidFCConfig_nonpos. Qed.
+Print Assumptions toValidFCConfig_rejects_nonpositive_sizes.
+
+Theorem toValidFCConfig_rejects_nil_weight_initializer :
+  forall (A : Type) (SA : Scalar A) (fltb fleb : A -> A -> bool)
+    (lib : string -> list dval -> heap -> option (list dval * heap)) (fuel depth : nat)
+    (inputs outputs : Z) (mp : option (option dval * option dval)) (h : heap),
+  (0 < inputs)%Z ->
+  (0 < outputs)%Z ->
+  CompFcP.mapW mp = Some DNil ->
+  CompFcP.outcome
+    (drun cfapp heap (cext2 fltb fleb lib) GoComp.c_FC_toValidFCConfig fuel depth
+       [CompFcP.fcConf inputs outputs (CompFcP.fcMap mp)] h) =
+  Some ([CompFcP.fcConf inputs outputs (CompFcP.fcMap mp); DI 1], h).
+Proof. exact @CompFcP.toValidFCConfig_nilWeight. Qed.
+Print Assumptions toValidFCConfig_rejects_nil_weight_initializer.
+
+Theorem toValidFCConfig_rejects_nil_bias_initializer :
+  forall (A : Type) (SA : Scalar A) (fltb fleb : A -> A -> bool)
+    (lib : string -> list dval -> heap -> option (list dval * heap)) (fuel depth : nat)
+    (inputs outputs : Z) (mp : option (option dval * option dval)) (h : heap),
+  (0 < inputs)%Z ->
+  (0 < outputs)%Z ->
+  CompFcP.mapW mp <> Some DNil ->
+  CompFcP.mapB mp = Some DNil ->
+  CompFcP.outcome
+    (drun cfapp heap (cext2 fltb fleb lib) GoComp.c_FC_toValidFCConfig fuel depth
+       [CompFcP.fcConf inputs outputs (CompFcP.fcMap mp)] h) =
+  Some
+    ([CompFcP.fcConf inputs outputs (DL [DL [CompFcP.wvOf inputs outputs (CompFcP.mapW mp)]; DL [DNil]]);
+      DI 1], h).
+Proof. exact @CompFcP.toValidFCConfig_nilBias. Qed.
+Print Assumptions toValidFCConfig_rejects_nil_bias_initializer.
+
+Theorem toValidFCConfig_accepts_with_the_defaults :
+  forall (A : Type) (SA : Scalar A) (fltb fleb : A -> A -> bool)
+    (lib : string -> list dval -> heap -> option (list dval * heap)) (fuel depth : nat)
+    (inputs outputs : Z) (mp : option (option dval * option dval)) (h : heap),
+  (0 < inputs)%Z ->
+  (0 < outputs)%Z ->
+  CompFcP.mapW mp <> Some DNil ->
+  CompFcP.mapB mp <> Some DNil ->
+  CompFcP.outcome
+    (drun cfapp heap (cext2 fltb fleb lib) GoComp.c_FC_toValidFCConfig fuel depth
+       [CompFcP.fcConf inputs outputs (CompFcP.fcMap mp)] h) =
+  Some
+    ([CompFcP.fcConf inputs outputs
+        (DL [DL [CompFcP.wvOf inputs outputs (CompFcP.mapW mp)]; DL [CompFcP.bvOf (CompFcP.mapB mp)]]);
+      DI 0], h).
+Proof. exact @CompFcP.toValidFCConfig_ok. Qed.
+Print Assumptions toValidFCConfig_accepts_with_the_defaults.
+
+Theorem toValidFCConfig_accepts_iff :
+  forall (A : Type) (SA : Scalar A) (fltb fleb : A -> A -> bool)
+    (lib : string -> list dval -> heap -> option (list dval * heap)) (fuel depth : nat)
+    (inputs outputs : Z) (mp : option (option dval * option dval)) (h : heap),
+  (exists c : dval,
+     CompFcP.outcome
+       (drun cfapp heap (cext2 fltb fleb lib) GoComp.c_FC_toValidFCConfig fuel depth
+          [CompFcP.fcConf inputs outputs (CompFcP.fcMap mp)] h) = Some ([c; DI 0], h)) <->
+  (0 < inputs)%Z /\ (0 < outputs)%Z /\ CompFcP.mapW mp <> Some DNil /\ CompFcP.mapB mp <> Some DNil.
+Proof. exact @CompFcP.toValidFCConfig_accepts_iff. Qed.
+Print Assumptions toValidFCConfig_accepts_iff.
+
+Theorem NewFC_rejects_nil :
+  forall (A : Type) (SA : Scalar A) (fltb fleb : A -> A -> bool)
+    (lib : string -> list dval -> heap -> option (list dval * heap)) (fuel depth : nat) 
+    (h : heap),
+  CompFcP.outcome (drun cfapp heap (cext3 fltb fleb lib) GoComp.c_FC_NewFC fuel depth [DNil] h) =
+  Some ([DNil; DI 1], h).
+Proof. exact @CompFcP.NewFC_nil. Qed.
+Print Assumptions NewFC_rejects_nil.
+
+Theorem NewFC_rejects_what_the_config_validator_rejects :
+  forall (A : Type) (SA : Scalar A) (fltb fleb : A -> A -> bool)
+    (lib : string -> list dval -> heap -> option (list dval * heap)) (fuel depth : nat)
+    (inputs outputs : Z) (mp : option (option dval * option dval)) (h : heap),
+  CompFcP.fcReject inputs outputs mp = true ->
+  CompFcP.outcome
+    (drun cfapp heap (cext3 fltb fleb lib) GoComp.c_FC_NewFC fuel depth
+       [CompFcP.fcConf inputs outputs (CompFcP.fcMap mp)] h) = Some ([DNil; DI 1], h).
+Proof. exact @CompFcP.NewFC_reject. Qed.
+Print Assumptions NewFC_rejects_what_the_config_validator_rejects.
+
+Theorem NewFC_stops_at_a_failing_weight_Init :
+  forall (A : Type) (SA : Scalar A) (fltb fleb : A -> A -> bool)
+    (lib : string -> list dval -> heap -> option (list dval * heap)) (inputs outputs : Z)
+    (mp : option (option dval * option dval)),
+  CompFcP.fcReject inputs outputs mp = false ->
+  forall (fuel depth : nat) (h h1 : heap) (w : dval) (e1 : Z),
+  lib "Init" [CompFcP.wvOf inputs outputs (CompFcP.mapW mp); DL [DI outputs]] h = Some ([w; DI e1], h1) ->
+  e1 <> 0%Z ->
+  CompFcP.outcome
+    (drun cfapp heap (cext3 fltb fleb lib) GoComp.c_FC_NewFC fuel depth
+       [CompFcP.fcConf inputs outputs (CompFcP.fcMap mp)] h) = Some ([DNil; DI e1], h1).
+Proof. exact @CompFcP.NewFC_weightInit_fails. Qed.
+Print Assumptions NewFC_stops_at_a_failing_weight_Init.
+
+Theorem NewFC_stops_at_a_failing_bias_Init :
+  forall (A : Type) (SA : Scalar A) (fltb fleb : A -> A -> bool)
+    (lib : string -> list dval -> heap -> option (list dval * heap)) (inputs outputs : Z)
+    (mp : option (option dval * option dval)),
+  CompFcP.fcReject inputs outputs mp = false ->
+  forall (fuel depth : nat) (h h1 h2 : heap) (w b : dval) (e2 : Z),
+  lib "Init" [CompFcP.wvOf inputs outputs (CompFcP.mapW mp); DL [DI outputs]] h = Some ([w; DI 0], h1) ->
+  lib "Init" [CompFcP.bvOf (CompFcP.mapB mp); DL [DI outputs]] h1 = Some ([b; DI e2], h2) ->
+  e2 <> 0%Z ->
+  CompFcP.outcome
+    (drun cfapp heap (cext3 fltb fleb lib) GoComp.c_FC_NewFC fuel depth
+       [CompFcP.fcConf inputs outputs (CompFcP.fcMap mp)] h) = Some ([DNil; DI e2], h2).
+Proof. exact @CompFcP.NewFC_biasInit_fails. Qed.
+Print Assumptions NewFC_stops_at_a_failing_bias_Init.
+
+Theorem NewFC_weight_first_then_bias_then_size_check :
+  forall (A : Type) (SA : Scalar A) (fltb fleb : A -> A -> bool)
+    (lib : string -> list dval -> heap -> option (list dval * heap)) (inputs outputs : Z)
+    (mp : option (option dval * option dval)),
+  CompFcP.fcReject inputs outputs mp = false ->
+  forall (fuel depth : nat) (h h1 h2 : heap) (w b : targ),
+  lib "Init" [CompFcP.wvOf inputs outputs (CompFcP.mapW mp); DL [DI outputs]] h =
+  Some ([dtarg w; DI 0], h1) ->
+  lib "Init" [CompFcP.bvOf (CompFcP.mapB mp); DL [DI outputs]] h1 = Some ([dtarg b; DI 0], h2) ->
+  CompValidP.targOk h2 w ->
+  CompValidP.targOk h2 b ->
+  CompFcP.outcome
+    (drun cfapp heap (cext3 fltb fleb lib) GoComp.c_FC_NewFC fuel depth
+       [CompFcP.fcConf inputs outputs (CompFcP.fcMap mp)] h) =
+  Some
+    (if CompValidP.initWeightsOk h2 w b outputs then [DL [dtarg w; dtarg b]; DI 0] else [DNil; DI 1], h2).
+Proof. exact @CompFcP.NewFC_initialized. Qed.
+Print Assumptions NewFC_weight_first_then_bias_then_size_check.
+
+Theorem NewFC_ok_iff :
+  forall (A : Type) (SA : Scalar A) (fltb fleb : A -> A -> bool)
+    (lib : string -> list dval -> heap -> option (list dval * heap)) (inputs outputs : Z)
+    (mp : option (option dval * option dval)),
+  CompFcP.fcReject inputs outputs mp = false ->
+  forall (fuel depth : nat) (h h1 h2 : heap) (w b : targ),
+  lib "Init" [CompFcP.wvOf inputs outputs (CompFcP.mapW mp); DL [DI outputs]] h =
+  Some ([dtarg w; DI 0], h1) ->
+  lib "Init" [CompFcP.bvOf (CompFcP.mapB mp); DL [DI outputs]] h1 = Some ([dtarg b; DI 0], h2) ->
+  CompValidP.targOk h2 w ->
+  CompValidP.targOk h2 b ->
+  CompFcP.outcome
+    (drun cfapp heap (cext3 fltb fleb lib) GoComp.c_FC_NewFC fuel depth
+       [CompFcP.fcConf inputs outputs (CompFcP.fcMap mp)] h) = Some ([DL [dtarg w; dtarg b]; DI 0], h2) <->
+  (exists wn bn : nat,
+     w = Some wn /\
+     b = Some bn /\
+     rankOf h2 wn = 1 /\
+     rankOf h2 bn = 1 /\ Z.of_nat (dim0Of h2 wn) = outputs /\ Z.of_nat (dim0Of h2 bn) = outputs).
+Proof. exact @CompFcP.NewFC_ok_iff. Qed.
+Print Assumptions NewFC_ok_iff.
+
+Theorem rejection_test_is_the_models :
+  forall (A : Type) (inputs outputs : Z) (wi bi : option (option initSpec)) (wd bd : option (@dval A)),
+  @CompFcP.slotRep A wi wd ->
+  @CompFcP.slotRep A bi bd ->
+  @CompFcP.fcReject A inputs outputs (@Some (option (@dval A) * option (@dval A)) (wd, bd)) =
+  (inputs <=? 0)%Z || (outputs <=? 0)%Z || CompFcP.specNil wi || CompFcP.specNil bi.
+Proof. exact @CompFcP.fcReject_model. Qed.
+Print Assumptions rejection_test_is_the_models.
+
+Theorem fc_new_rejects_the_same :
+  forall (A : Type) (SA : Scalar A) (dF dL dU dM dS : dec) (h : heap) (inputs outputs : Z)
+    (wi bi : option (option initSpec)) (pos : nat),
+  (inputs <=? 0)%Z || (outputs <=? 0)%Z || CompFcP.specNil wi || CompFcP.specNil bi = true ->
+  fc_new dF dL dU dM dS h inputs outputs wi bi pos = (h, Err, pos).
+Proof. exact @CompFcP.fc_new_reject. Qed.
+Print Assumptions fc_new_rejects_the_same.
+
+Theorem fc_new_initialises_weight_then_bias_with_shape_outputs :
+  forall (A : Type) (SA : Scalar A) (dF dL dU dM dS : dec) (h : heap) (inputs outputs : Z)
+    (wi bi : option (option initSpec)) (pos : nat),
+  (inputs <=? 0)%Z || (outputs <=? 0)%Z || CompFcP.specNil wi || CompFcP.specNil bi = false ->
+  fc_new dF dL dU dM dS h inputs outputs wi bi pos =
+  (let (p, pos1) := init_run dF dL dU dM dS h (CompFcP.wsOf inputs outputs wi) [outputs] pos None in
+   let (h1, r) := p in
+   match r with
+   | Ok w =>
+       let (p0, pos2) := init_run dF dL dU dM dS h1 (CompFcP.bsOf bi) [outputs] pos1 None in
+       let (h2, r0) := p0 in
+       match r0 with
+       | Ok b => (h2, Ok (w, b), pos2)
+       | Err => (h, Err, pos)
+       | Panic => (h, Panic, pos)
+       end
+   | Err => (h, Err, pos)
+   | Panic => (h, Panic, pos)
+   end).
+Proof. exact @CompFcP.fc_new_accept. Qed.
+Print Assumptions fc_new_initialises_weight_then_bias_with_shape_outputs.
+
+Theorem default_weight_initializer_is_XavierUniform_inputs_outputs :
+  forall (A : Type) (SA : Scalar A) (fltb fleb : A -> A -> bool)
+    (lib : string -> list dval -> heap -> option (list dval * heap)) (dL dU dS : dec) 
+    (fuel depth : nat) (inputs outputs : Z) (h : heap),
+  (0 < inputs)%Z ->
+  (0 < outputs)%Z ->
+  init_valid dL dU dS (CompFcP.wsOf inputs outputs None) = true /\
+  CompFcP.outcome
+    (drun cfapp heap (cext fltb fleb lib) GoComp.c_XavierUniform_NewXavierUniform fuel depth
+       [CompInitP.cfgI2 (Some (inputs, outputs))] h) =
+  Some ([CompFcP.wvOf inputs outputs None; DI 0], h).
+Proof. exact @CompFcP.default_weight_spec. Qed.
+Print Assumptions default_weight_initializer_is_XavierUniform_inputs_outputs.
+
+Theorem default_bias_initializer_is_Full_0 :
+  forall (A : Type) (SA : Scalar A) (fltb fleb : A -> A -> bool)
+    (lib : string -> list dval -> heap -> option (list dval * heap)) (dL dU dS : dec) 
+    (fuel depth : nat) (h : heap),
+  init_valid dL dU dS (CompFcP.bsOf None) = true /\
+  CompFcP.outcome
+    (drun cfapp heap (cext fltb fleb lib) GoComp.c_Full_NewFull fuel depth
+       [CompInitP.cfgD1 (Some (0%Z, 0%Z))] h) = Some ([CompFcP.bvOf None], h).
+Proof. exact @CompFcP.default_bias_spec. Qed.
+Print Assumptions default_bias_initializer_is_Full_0.
+
+Theorem default_weight_Init_arguments :
+  forall (A : Type) (SA : Scalar A) (fltb fleb : A -> A -> bool)
+    (lib : string -> list dval -> heap -> option (list dval * heap)) (fuel depth : nat)
+    (inputs outputs : Z) (sh cfg : dval) (h h1 : heap),
+  (0 < inputs)%Z ->
+  (0 < outputs)%Z ->
+  lib "tensorInitConf" [] h = Some ([cfg], h1) ->
+  match CompFcP.wvOf inputs outputs None with
+  | DL fields =>
+      let r := sqrtOver 6 (inputs + outputs) in
+      CompInitP.isCall
+        (drun cfapp heap (cext0 fltb fleb lib) GoComp.c_XavierUniform_Init fuel depth (fields ++ [sh]) h)
+        (lib "tensor.RandU" [sh; DF (ssub (sconst 0 0) r); DF r; cfg] h1)
+  | _ => False
+  end.
+Proof. exact @CompFcP.default_weight_Init. Qed.
+Print Assumptions default_weight_Init_arguments.
+
+Theorem default_bias_Init_arguments :
+  forall (A : Type) (SA : Scalar A) (fltb fleb : A -> A -> bool)
+    (lib : string -> list dval -> heap -> option (list dval * heap)) (fuel depth : nat) 
+    (sh cfg : dval) (h h1 : heap),
+  lib "tensorInitConf" [] h = Some ([cfg], h1) ->
+  match CompFcP.bvOf None with
+  | DL fields =>
+      CompInitP.isCall
+        (drun cfapp heap (cext0 fltb fleb lib) GoComp.c_Full_Init fuel depth (fields ++ [sh]) h)
+        (lib "tensor.Full" [sh; DF (dcst (0%Z, 0%Z)); cfg] h1)
+  | _ => False
+  end.
+Proof. exact @CompFcP.default_bias_Init. Qed.
+Print Assumptions default_bias_Init_arguments.
